@@ -325,7 +325,9 @@ static void pushAuth(bool hasFrom, int nitems)
         }
     }
     bool r = m->QXmppRosterManager::handleStanza(q.iq);
-    vp_assert(r, "C12 roster IQ from the server / own account is handled (handleStanza returns true)");
+    // the property only speaks about pushes (type set); whether a roster get/result/error is consumed or left to the
+    // client's fallback answer is C08's subject (defect D8), so the return value is checked for pushes only
+    if (q.isSet) vp_assert(r, "C12 roster push from the server / own account is handled (handleStanza returns true)");
     vp_assert(g_niq == 0, "C12 handling a roster IQ sends no request");
     if (q.isSet) {
         vp_assert(g_nsent == 1, "C12 an authorised roster push is acknowledged with exactly one stanza");
